@@ -12,29 +12,60 @@ pub proof fn lemma_div_scale(ct: real, x: real, e: real) requires ct > 0real, e 
 pub open spec fn fp_same(w: Seq<Factor>, w2: Seq<Factor>, c: Carrier) -> bool {
     forall|s: Source, d: Dest, st: Step| #[trigger] has_fp(w2, c, s, d, st) == has_fp(w, c, s, d, st) && fp(w2, c, s, d, st) == fp(w, c, s, d, st)
 }
+/// the keys the weighting step of carrier c looks up (read off we_factors_ok / the we_* spec functions) read the same in both sets
+pub open spec fn key_same(w: Seq<Factor>, w2: Seq<Factor>, c: Carrier, s: Source, d: Dest, st: Step) -> bool {
+    has_fp(w2, c, s, d, st) == has_fp(w, c, s, d, st) && fp(w2, c, s, d, st) == fp(w, c, s, d, st)
+}
+pub open spec fn we_lookups_same(w: Seq<Factor>, w2: Seq<Factor>, c: Carrier, exp: ExportedEnergy, del: DeliveredEnergy) -> bool {
+    &&& key_same(w, w2, c, Source::RED, Dest::SUMINISTRO, Step::A)
+    &&& (rv(del.onst_an) != 0real ==> key_same(w, w2, c, Source::INSITU, Dest::SUMINISTRO, Step::A))
+    &&& (rv(exp.an) != 0real && rv(exp.nepus_an) != 0real ==> forall|src: ProdSource| exp.by_src_an@.contains_key(src) ==>
+            #[trigger] key_same(w, w2, c, ps_source(src), Dest::A_NEPB, Step::A) && key_same(w, w2, c, ps_source(src), Dest::A_NEPB, Step::B))
+    &&& (rv(exp.an) != 0real && rv(exp.grid_an) != 0real ==> forall|src: ProdSource| exp.by_src_an@.contains_key(src) ==>
+            #[trigger] key_same(w, w2, c, ps_source(src), Dest::A_RED, Step::A) && key_same(w, w2, c, ps_source(src), Dest::A_RED, Step::B))
+}
+pub proof fn lemma_favg_keys(w: Seq<Factor>, w2: Seq<Factor>, c: Carrier, m: Map<ProdSource, f32>, e: real, d: Dest, st: Step)
+    requires forall|src: ProdSource| m.contains_key(src) ==> #[trigger] key_same(w, w2, c, ps_source(src), d, st),
+    ensures favg(w2, c, m, e, d, st) == favg(w, c, m, e, d, st), favg_ok(w2, c, m, d, st) == favg_ok(w, c, m, d, st),
+{
+    assert forall|src: ProdSource| favg_term(w2, c, m, e, d, st, src) == favg_term(w, c, m, e, d, st, src) by {
+        if m.contains_key(src) { assert(key_same(w, w2, c, ps_source(src), d, st)); }
+    }
+    if favg_ok(w, c, m, d, st) {
+        assert forall|src: ProdSource| m.contains_key(src) implies #[trigger] has_fp(w2, c, ps_source(src), d, st) by { assert(key_same(w, w2, c, ps_source(src), d, st)); assert(has_fp(w, c, ps_source(src), d, st)); }
+    }
+    if favg_ok(w2, c, m, d, st) {
+        assert forall|src: ProdSource| m.contains_key(src) implies #[trigger] has_fp(w, c, ps_source(src), d, st) by { assert(key_same(w, w2, c, ps_source(src), d, st)); assert(has_fp(w2, c, ps_source(src), d, st)); }
+    }
+}
+pub proof fn lemma_fp_same_lookups(w: Seq<Factor>, w2: Seq<Factor>, c: Carrier, exp: ExportedEnergy, del: DeliveredEnergy)
+    requires fp_same(w, w2, c),
+    ensures we_lookups_same(w, w2, c, exp, del),
+{
+    assert forall|s: Source, d: Dest, st: Step| key_same(w, w2, c, s, d, st) by { let t = has_fp(w2, c, s, d, st); assert(t == has_fp(w, c, s, d, st)); assert(fp(w2, c, s, d, st) == fp(w, c, s, d, st)); }
+}
 pub open spec fn mvalf_rel(m: Map<ProdSource, f32>, m2: Map<ProdSource, f32>, ct: real) -> bool {
     m2.dom() =~= m.dom() && forall|s: ProdSource| #[trigger] mvalf(m2, s) == ct * mvalf(m, s)
 }
 /// the average export factor (weights = share of each source in the exported energy) is homogeneous of degree 0
 pub proof fn lemma_favg_scale(w: Seq<Factor>, w2: Seq<Factor>, c: Carrier, m: Map<ProdSource, f32>, m2: Map<ProdSource, f32>, e: real, ct: real, d: Dest, st: Step)
-    requires ct > 0real, e != 0real, mvalf_rel(m, m2, ct), fp_same(w, w2, c),
+    requires ct > 0real, e != 0real, mvalf_rel(m, m2, ct), forall|src: ProdSource| m.contains_key(src) ==> #[trigger] key_same(w, w2, c, ps_source(src), d, st),
     ensures favg(w2, c, m2, ct * e, d, st) == favg(w, c, m, e, d, st), favg_ok(w2, c, m2, d, st) == favg_ok(w, c, m, d, st),
 {
     assert forall|src: ProdSource| favg_term(w2, c, m2, ct * e, d, st, src) == favg_term(w, c, m, e, d, st, src) by {
-        assert(has_fp(w2, c, ps_source(src), d, st) == has_fp(w, c, ps_source(src), d, st) && fp(w2, c, ps_source(src), d, st) == fp(w, c, ps_source(src), d, st));
         if m.contains_key(src) {
+            assert(key_same(w, w2, c, ps_source(src), d, st));
             assert(m2.contains_key(src));
             assert(mvalf(m2, src) == ct * mvalf(m, src));
             lemma_div_scale(ct, rv(m[src]), e);
         } else { assert(!m2.contains_key(src)); }
     }
     assert forall|src: ProdSource| m2.contains_key(src) == m.contains_key(src) by {}
-    assert forall|src: ProdSource| #[trigger] has_fp(w2, c, ps_source(src), d, st) == has_fp(w, c, ps_source(src), d, st) by {}
     if favg_ok(w, c, m, d, st) {
-        assert forall|src: ProdSource| m2.contains_key(src) implies #[trigger] has_fp(w2, c, ps_source(src), d, st) by { assert(m.contains_key(src)); assert(has_fp(w, c, ps_source(src), d, st)); }
+        assert forall|src: ProdSource| m2.contains_key(src) implies #[trigger] has_fp(w2, c, ps_source(src), d, st) by { assert(m.contains_key(src)); assert(key_same(w, w2, c, ps_source(src), d, st)); assert(has_fp(w, c, ps_source(src), d, st)); }
     }
     if favg_ok(w2, c, m2, d, st) {
-        assert forall|src: ProdSource| m.contains_key(src) implies #[trigger] has_fp(w, c, ps_source(src), d, st) by { assert(m2.contains_key(src)); assert(has_fp(w2, c, ps_source(src), d, st)); }
+        assert forall|src: ProdSource| m.contains_key(src) implies #[trigger] has_fp(w, c, ps_source(src), d, st) by { assert(m2.contains_key(src)); assert(key_same(w, w2, c, ps_source(src), d, st)); assert(has_fp(w2, c, ps_source(src), d, st)); }
     }
 }
 pub open spec fn we_rel(x: WeightedEnergy, y: WeightedEnergy, ct: real) -> bool {
@@ -60,7 +91,7 @@ pub proof fn lemma_we_inputs(a: Run, b: Run, ct: real)
     ensures we_inputs_rel(a, b, ct),
 {}
 pub proof fn lemma_we_exp_parts(w: Seq<Factor>, w2: Seq<Factor>, c: Carrier, a: Run, b: Run, ct: real)
-    requires ct > 0real, we_inputs_rel(a, b, ct), fp_same(w, w2, c),
+    requires ct > 0real, we_inputs_rel(a, b, ct), we_lookups_same(w, w2, c, a.exp, a.del),
     ensures
         we_exp_nepus_a(w2, c, b.exp) == r3s(ct, we_exp_nepus_a(w, c, a.exp)), we_exp_grid_a(w2, c, b.exp) == r3s(ct, we_exp_grid_a(w, c, a.exp)),
         we_exp_nepus_ab(w2, c, b.exp) == r3s(ct, we_exp_nepus_ab(w, c, a.exp)), we_exp_grid_ab(w2, c, b.exp) == r3s(ct, we_exp_grid_ab(w, c, a.exp)),
@@ -71,10 +102,19 @@ pub proof fn lemma_we_exp_parts(w: Seq<Factor>, w2: Seq<Factor>, c: Carrier, a: 
     lemma_pos_mul(ct, e); lemma_pos_mul(ct, rv(a.exp.nepus_an)); lemma_pos_mul(ct, rv(a.exp.grid_an));
     lemma_r3s_lin(ct, r3z(), r3z());
     if e != 0real {
-        lemma_favg_scale(w, w2, c, a.exp.by_src_an@, b.exp.by_src_an@, e, ct, Dest::A_NEPB, Step::A);
-        lemma_favg_scale(w, w2, c, a.exp.by_src_an@, b.exp.by_src_an@, e, ct, Dest::A_NEPB, Step::B);
-        lemma_favg_scale(w, w2, c, a.exp.by_src_an@, b.exp.by_src_an@, e, ct, Dest::A_RED, Step::A);
-        lemma_favg_scale(w, w2, c, a.exp.by_src_an@, b.exp.by_src_an@, e, ct, Dest::A_RED, Step::B);
+        let m_ = a.exp.by_src_an@;
+        if rv(a.exp.nepus_an) != 0real {
+            assert forall|src: ProdSource| m_.contains_key(src) implies #[trigger] key_same(w, w2, c, ps_source(src), Dest::A_NEPB, Step::A) by {}
+            assert forall|src: ProdSource| m_.contains_key(src) implies #[trigger] key_same(w, w2, c, ps_source(src), Dest::A_NEPB, Step::B) by { assert(key_same(w, w2, c, ps_source(src), Dest::A_NEPB, Step::A)); }
+            lemma_favg_scale(w, w2, c, a.exp.by_src_an@, b.exp.by_src_an@, e, ct, Dest::A_NEPB, Step::A);
+            lemma_favg_scale(w, w2, c, a.exp.by_src_an@, b.exp.by_src_an@, e, ct, Dest::A_NEPB, Step::B);
+        }
+        if rv(a.exp.grid_an) != 0real {
+            assert forall|src: ProdSource| m_.contains_key(src) implies #[trigger] key_same(w, w2, c, ps_source(src), Dest::A_RED, Step::A) by {}
+            assert forall|src: ProdSource| m_.contains_key(src) implies #[trigger] key_same(w, w2, c, ps_source(src), Dest::A_RED, Step::B) by { assert(key_same(w, w2, c, ps_source(src), Dest::A_RED, Step::A)); }
+            lemma_favg_scale(w, w2, c, a.exp.by_src_an@, b.exp.by_src_an@, e, ct, Dest::A_RED, Step::A);
+            lemma_favg_scale(w, w2, c, a.exp.by_src_an@, b.exp.by_src_an@, e, ct, Dest::A_RED, Step::B);
+        }
         assert(f_nepus(w2, c, b.exp, Step::A) == f_nepus(w, c, a.exp, Step::A));
         assert(f_nepus(w2, c, b.exp, Step::B) == f_nepus(w, c, a.exp, Step::B));
         assert(f_grid(w2, c, b.exp, Step::A) == f_grid(w, c, a.exp, Step::A));
@@ -88,16 +128,15 @@ pub proof fn lemma_we_exp_parts(w: Seq<Factor>, w2: Seq<Factor>, c: Carrier, a: 
     lemma_r3s_lin(ct, we_exp_nepus_ab(w, c, a.exp), we_exp_grid_ab(w, c, a.exp));
 }
 pub proof fn lemma_we_del_parts(w: Seq<Factor>, w2: Seq<Factor>, c: Carrier, a: Run, b: Run, ct: real)
-    requires ct > 0real, we_inputs_rel(a, b, ct), fp_same(w, w2, c),
+    requires ct > 0real, we_inputs_rel(a, b, ct), we_lookups_same(w, w2, c, a.exp, a.del),
     ensures
         we_del_grid(w2, c, b.del) == r3s(ct, we_del_grid(w, c, a.del)), we_del_onst(w2, c, b.del) == r3s(ct, we_del_onst(w, c, a.del)),
         we_del_cgn(w2, c, b.del) == r3s(ct, we_del_cgn(w, c, a.del)), we_del(w2, c, b.del) == r3s(ct, we_del(w, c, a.del)),
 {
     lemma_pos_mul(ct, rv(a.del.onst_an));
     lemma_r3s_lin(ct, r3z(), r3z());
-    assert(has_fp(w2, c, Source::RED, Dest::SUMINISTRO, Step::A) == has_fp(w, c, Source::RED, Dest::SUMINISTRO, Step::A) && fgrid(w2, c) == fgrid(w, c));
-    assert(has_fp(w2, c, Source::INSITU, Dest::SUMINISTRO, Step::A) == has_fp(w, c, Source::INSITU, Dest::SUMINISTRO, Step::A)
-        && fp(w2, c, Source::INSITU, Dest::SUMINISTRO, Step::A) == fp(w, c, Source::INSITU, Dest::SUMINISTRO, Step::A));
+    assert(key_same(w, w2, c, Source::RED, Dest::SUMINISTRO, Step::A) && fgrid(w2, c) == fgrid(w, c));
+    assert(rv(a.del.onst_an) != 0real ==> key_same(w, w2, c, Source::INSITU, Dest::SUMINISTRO, Step::A));
     lemma_r3s_assoc(ct, rv(a.del.grid_an), fgrid(w, c));
     lemma_r3s_assoc(ct, rv(a.del.cgn_an), fgrid(w, c));
     lemma_r3s_assoc(ct, rv(a.del.onst_an), fp(w, c, Source::INSITU, Dest::SUMINISTRO, Step::A));
@@ -106,7 +145,7 @@ pub proof fn lemma_we_del_parts(w: Seq<Factor>, w2: Seq<Factor>, c: Carrier, a: 
 }
 /// THE WEIGHTING THEOREM: annual figures x ct  ==>  same Ok / Err, every weighted figure x ct (so per-carrier RER-type ratios are unchanged)
 pub proof fn thm_weights(w: Seq<Factor>, w2: Seq<Factor>, c: Carrier, k: real, a: Run, b: Run, ct: real, r: Result<WeightedEnergy>, r2: Result<WeightedEnergy>)
-    requires ct > 0real, we_inputs_rel(a, b, ct), fp_same(w, w2, c),
+    requires ct > 0real, we_inputs_rel(a, b, ct), we_lookups_same(w, w2, c, a.exp, a.del),
              cwe_post(w, c, k, a.used, a.exp, a.del, r), cwe_post(w2, c, k, b.used, b.exp, b.del, r2),
     ensures (r is Ok) == (r2 is Ok), r is Ok ==> we_rel(r->Ok_0, r2->Ok_0, ct),
 {
@@ -115,13 +154,22 @@ pub proof fn thm_weights(w: Seq<Factor>, w2: Seq<Factor>, c: Carrier, k: real, a
     let e = rv(a.exp.an);
     lemma_pos_mul(ct, e); lemma_pos_mul(ct, rv(a.exp.nepus_an)); lemma_pos_mul(ct, rv(a.exp.grid_an)); lemma_pos_mul(ct, rv(a.del.onst_an));
     if e != 0real {
-        lemma_favg_scale(w, w2, c, a.exp.by_src_an@, b.exp.by_src_an@, e, ct, Dest::A_NEPB, Step::A);
-        lemma_favg_scale(w, w2, c, a.exp.by_src_an@, b.exp.by_src_an@, e, ct, Dest::A_NEPB, Step::B);
-        lemma_favg_scale(w, w2, c, a.exp.by_src_an@, b.exp.by_src_an@, e, ct, Dest::A_RED, Step::A);
-        lemma_favg_scale(w, w2, c, a.exp.by_src_an@, b.exp.by_src_an@, e, ct, Dest::A_RED, Step::B);
+        let m_ = a.exp.by_src_an@;
+        if rv(a.exp.nepus_an) != 0real {
+            assert forall|src: ProdSource| m_.contains_key(src) implies #[trigger] key_same(w, w2, c, ps_source(src), Dest::A_NEPB, Step::A) by {}
+            assert forall|src: ProdSource| m_.contains_key(src) implies #[trigger] key_same(w, w2, c, ps_source(src), Dest::A_NEPB, Step::B) by { assert(key_same(w, w2, c, ps_source(src), Dest::A_NEPB, Step::A)); }
+            lemma_favg_scale(w, w2, c, a.exp.by_src_an@, b.exp.by_src_an@, e, ct, Dest::A_NEPB, Step::A);
+            lemma_favg_scale(w, w2, c, a.exp.by_src_an@, b.exp.by_src_an@, e, ct, Dest::A_NEPB, Step::B);
+        }
+        if rv(a.exp.grid_an) != 0real {
+            assert forall|src: ProdSource| m_.contains_key(src) implies #[trigger] key_same(w, w2, c, ps_source(src), Dest::A_RED, Step::A) by {}
+            assert forall|src: ProdSource| m_.contains_key(src) implies #[trigger] key_same(w, w2, c, ps_source(src), Dest::A_RED, Step::B) by { assert(key_same(w, w2, c, ps_source(src), Dest::A_RED, Step::A)); }
+            lemma_favg_scale(w, w2, c, a.exp.by_src_an@, b.exp.by_src_an@, e, ct, Dest::A_RED, Step::A);
+            lemma_favg_scale(w, w2, c, a.exp.by_src_an@, b.exp.by_src_an@, e, ct, Dest::A_RED, Step::B);
+        }
     }
-    assert(has_fp(w2, c, Source::RED, Dest::SUMINISTRO, Step::A) == has_fp(w, c, Source::RED, Dest::SUMINISTRO, Step::A));
-    assert(has_fp(w2, c, Source::INSITU, Dest::SUMINISTRO, Step::A) == has_fp(w, c, Source::INSITU, Dest::SUMINISTRO, Step::A));
+    assert(key_same(w, w2, c, Source::RED, Dest::SUMINISTRO, Step::A));
+    assert(rv(a.del.onst_an) != 0real ==> key_same(w, w2, c, Source::INSITU, Dest::SUMINISTRO, Step::A));
     assert(we_factors_ok(w2, c, b.exp, b.del) == we_factors_ok(w, c, a.exp, a.del));
     if r is Ok {
         let x = r->Ok_0; let y = r2->Ok_0;
